@@ -163,6 +163,8 @@ def make_gt(rng, kind, nalts, ploidy=2):
         return "/".join(["."] * ploidy)
     if kind == "half":
         return "/".join(["0"] + ["."] * (ploidy - 1)) if rng.random() < 0.5 else "/".join(["."] * (ploidy - 1) + [str(a)])
+    if kind == "half_phased":
+        return "|".join(["0"] + ["."] * (ploidy - 1)) if rng.random() < 0.5 else "|".join(["."] * (ploidy - 1) + [str(a)])
     if kind == "dot":
         return "."
     if kind == "haploid":
